@@ -110,6 +110,14 @@ def classify(prop, failures, R, info):
             tool.append(f)
             continue
         if oid in R:
+            # a trait-level clause may carry a property only for one implementation (C01 is about Set 2, C02 about Set 1)
+            restr = R[oid].get('restricted', {}).get(prop)
+            site = getattr(f, 'site', None)
+            if restr and site and restr not in site:
+                other.append(f)
+                continue
+            if site and site != R[oid].get('fn'):
+                f.detail = 'in %s; %s' % (site, f.detail)
             mine.append(f)
             continue
         m = re.match(r'^(.*)/call(?::(.*))?$', oid)
@@ -373,6 +381,12 @@ def main(argv=None):
                     extra = {'counterexample': None, 'counterexample_search': 'failed: %r' % (e,)}
             else:
                 extra = {'counterexample': None, 'counterexample_search': 'skipped: more than 12 violations in this run'}
+            if extra and extra.get('spurious_bounded'):
+                # a clause on a real function is rejected, but neither Kani nor the exhaustive native sweeps of its scenario
+                # family find a failing input on the real code: a proof that no longer goes through, not an observed violation
+                undecided_reasons.append('verifier rejects %s (%s) but Kani and the exhaustive native sweeps [%s] find no failing input on the real code: proof incomplete after the change, reported undecided' % (
+                    f.oid, f.message, extra.get('sweeps_held', '')))
+                continue
             if extra and extra.get('spurious'):
                 # a complete stand-in executed the obligation's whole finite input domain on the real code and it holds
                 undecided_reasons.append('verifier rejects %s but complete native execution of its finite domain finds no failing input (solver incompleteness)' % f.oid)
